@@ -17,8 +17,9 @@
 //!   spec  {enc, api, x:[neg,mag], code}
 //!   pts   {enc, api, mags:[..], codes:[..]}      positive inputs, a batch
 //!   f64   {enc, x: exact f64, code}
-//!   dec   {enc, t, k, max, x: exact, back}       decoder of code k; back = public encoder applied to x
-//!   reset {enc, t, dir} / curve {enc, t, dir:"enc"|"dec", x, y, back}   generic float curves, sorted by x
+//!   dec   {enc, k, max, x32, x64: exact, back32, back64}   decoders of code k; back = public encoder applied to x
+//!   reset {enc, t, dir} / curve {enc, t, dir:"enc"|"dec", x, y, back}   generic float curves, sorted by x, in
+//!         sections of at most 120 points, each opened by a reset and a repetition of the point before it
 //!   form  {what, got:[exact..], want:[exact..]}  Rgb/Luma forms against the component-wise trait calls
 
 use palette::encoding::__verif as tv;
